@@ -118,7 +118,14 @@ pub fn choose_layout(p: &GProg, d: &mut Dec) -> Layout {
         fn_pkg[i] = Some(k);
         k
     }
-    let bumps: Vec<usize> = (0..p.fns.len()).map(|_| d.weighted(&[70, 20, 10])).collect();
+    let mut bumps: Vec<usize> = (0..p.fns.len()).map(|_| d.weighted(&[70, 20, 10])).collect();
+    // a function that returns a closure keeps callers and callee in one package: the
+    // closure-typed result is only patched within a package (part of KF-05)
+    for (i, f) in p.fns.iter().enumerate() {
+        if f.ret.has_fn() {
+            bumps[i] = main_idx;
+        }
+    }
     fn_pkg[p.main] = Some(main_idx);
     for i in 0..p.fns.len() {
         place(i, &deps, &adt_pkg, &mut fn_pkg, &bumps, main_idx, 0);
